@@ -23,6 +23,11 @@ func (r *vhRS15) Read(p []byte) (int, error) {
 func (r *vhRS15) Seek(offset int64, whence int) (int64, error) {
 	switch whence {
 	case io.SeekStart:
+		if vParam("CONCSEEK") == 1 && offset >= 0 && offset <= int64(len(r.data)) {
+			// case split on the position (every position in the file is explored, one path each):
+			// reads at a concrete position need no symbolic array indexing
+			offset = int64(vConc(int(offset)))
+		}
 		r.pos = offset
 	case io.SeekCurrent:
 		r.pos += offset
@@ -45,7 +50,7 @@ func (r *vhRS15) Seek(offset int64, whence int) (int64, error) {
 // The first magic byte (0x72) is assumed not to occur at any other offset inside the nodes, and
 // the bytes outside the nodes (chunk data, never read by ChunkReader) are zero, so that no
 // checksum is ever evaluated outside the designated nodes (where it could not be repaired for
-// the native replay).
+// the native replay). SHAPE=2 is the pointer-arithmetic family (see below).
 func vhHostileFile() []byte {
 	n := vParam("LEN")
 	f := vBytes("f", n)
@@ -112,13 +117,47 @@ func vhHostileFile() []byte {
 			}
 		}
 	}
+	if vParam("SHAPE") == 2 && a1 == 2 && a2 == 1 && len(offs) == 2 {
+		// the pointer-arithmetic family: a two-element root (leaf, branch) over a one-element child.
+		// Tags, codec, version, reserved bytes and the decompressed sizes are fixed; every CPtr,
+		// CLen, STag and CPtrMax field of both nodes and the root's DPtr[1] are symbolic (55 bytes).
+		r, c := offs[0], offs[1]
+		const dSize = 0x1000
+		fix := func(o int, v byte) { f[o] = v }
+		fix(r+6, 0)
+		fix(r+7, 0xFF)
+		fix(r+14, 0)
+		fix(r+15, 0xFE)
+		fix(r+16, dSize&0xFF)
+		fix(r+17, dSize>>8)
+		fix(r+18, 0)
+		fix(r+19, 0)
+		fix(r+20, 0)
+		fix(r+21, 0)
+		fix(r+22, 0)
+		fix(r+23, byte(CodecZlib>>56))
+		fix(r+46, 1)
+		fix(r+47, 2)
+		fix(c+6, 0)
+		fix(c+7, 0xFF)
+		fix(c+8, dSize&0xFF)
+		fix(c+9, dSize>>8)
+		fix(c+10, 0)
+		fix(c+11, 0)
+		fix(c+12, 0)
+		fix(c+13, 0)
+		fix(c+14, 0)
+		fix(c+15, byte(CodecZlib>>56))
+		fix(c+30, 1)
+		fix(c+31, 1)
+	}
 	for k, o := range offs {
 		if sizes[k] == 0 {
 			continue
 		}
 		c := crc32.ChecksumIEEE(f[o+6 : o+sizes[k]])
 		c ^= c >> 16
-		if vBool("repair") {
+		if vParam("SHAPE") == 2 || vBool("repair") {
 			f[o+4], f[o+5] = byte(c), byte(c>>8)
 		} else {
 			vAssume(vOr(f[o+4] != byte(c), f[o+5] != byte(c>>8)))
@@ -133,6 +172,9 @@ func VH_C15_Walk() {
 	f := vhHostileFile()
 	claimed := vI64("claimed")
 	vAssume(vAnd(claimed >= int64(len(f))-1, claimed <= int64(len(f))+1))
+	if vParam("SHAPE") == 2 {
+		vAssume(claimed == int64(len(f))) // the pointer-arithmetic family: exact size, checksums repaired
+	}
 	cr := &ChunkReader{ReadSeeker: &vhRS15{data: f}, CompressedSize: claimed}
 	ds, err := cr.DecompressedSize()
 	if err != nil {
